@@ -277,6 +277,29 @@ def check(cls, case, rec):
     rec.close("frequency=sqrt(lambda)/(2 pi)", abs(freq - np.sqrt(lam[n_mode]) / (2 * np.pi)) / max(abs(freq), 1e-300), 1e-14)
     rec.label(f"k={k}")
     rec.label("bc=" + case["bc"])
+    # the same job object evaluated a second time after its public boundary dictionary was replaced: the free unknowns, the
+    # pencil and the pairs are those of the new constraints
+    if case["seed"] % 4 == 2 and xg is None and cls != "mixed-hexahedron" and case["bc"] != "two-faces":
+        case2 = dict(case, bc="two-faces")
+        bounds2 = boundaries(fem, fc, Xref, case2, dim)
+        dof0b, dof1b = partition_model(fc, bounds2)
+        kb = min(k, len(dof1b) - 2)
+        if kb >= 1:
+            for f_ in fc.fields:
+                f_.values[...] = 0
+            job.boundaries = bounds2
+            job.evaluate(k=kb, **kw)
+            rec.label("job-re-evaluated-with-other-boundaries")
+            lam2, V2 = np.asarray(job.eigenvalues), np.asarray(job.eigenvectors)
+            ok2 = rec.require("re-evaluation: free unknowns follow the new boundaries", np.array_equal(np.asarray(job.dof1), dof1b) and V2.shape == (len(dof1b), kb),
+                              [V2.shape, len(dof1b)])
+            if ok2:
+                K11b, M11b = K[dof1b][:, dof1b], M[dof1b][:, dof1b]
+                w2 = 0.0
+                for i in range(kb):
+                    Kv = K11b @ V2[:, i]
+                    w2 = max(w2, float(np.linalg.norm(Kv - lam2[i] * (M11b @ V2[:, i])) / max(np.linalg.norm(Kv), 1e-300)))
+                rec.close("re-evaluation: K v = lambda M v", w2, 1e-7, {"k": kb})
 
 
 def free_check(cls, case, rec):
